@@ -43,7 +43,12 @@ def impl_distance(self_pts, other_kind, other, box, inv):
             b = np.array(other, dtype=float)
         bv = None if box is None else np.array(box, dtype=float)
         with np.errstate(all="ignore"):
-            d = a.distance_to(b, bv, inv) if bv is not None else a.distance_to(b)
+            if bv is None:
+                d = a.distance_to(b)                    # defaults: no box
+            elif inv:
+                d = a.distance_to(b, bv, True)
+            else:
+                d = a.distance_to(b, box_vects=bv)      # default of the flag
         return "ok", float(d)
     except np.linalg.LinAlgError:
         return "err", "EDiv0"
@@ -279,7 +284,14 @@ def pick_shifts(rs, k):
     return [ALL_SHIFTS[i] for i in idx]
 
 
+MAX_REPLAYS = 12
+
+
 def report(ctx, case, bad):
+    """one replay file per failing input, at most MAX_REPLAYS per run (the rest is only counted)"""
+    if len(ctx.violations) >= MAX_REPLAYS:
+        ctx.cov["S"]["violations_not_written"] = ctx.cov["S"].get("violations_not_written", 0) + 1
+        return
     ctx.violation("Residue.distance_to: " + "; ".join(bad), case, key="distance_to")
 
 
@@ -317,7 +329,7 @@ def corpus(ctx):
 
 def correspondence(ctx):
     rs = ctx.np_rng("K")
-    n_gen = ctx.n(1200, 20000)
+    n_gen = ctx.n(3000, 24000)
     cases, meta, hist = [], [], {}
 
     def add(case, box, inv, tag, nontrivial=True):
@@ -349,6 +361,7 @@ def correspondence(ctx):
             add(case, None, False, "nobox", nontrivial=False)
         # S on a part of the same cases
         if k % 4 == 0 and in_domain(case):
+            ctx.cov["S"]["on_K_cases"] = ctx.cov["S"].get("on_K_cases", 0) + 1
             bad = oracle_case(case, pick_shifts(rs, 4))
             if bad:
                 report(ctx, case, bad)
@@ -407,8 +420,8 @@ def correspondence(ctx):
 def oracle(ctx, scale):
     rs = ctx.np_rng("S%d" % scale)
     S = ctx.cov["S"]
-    n = ctx.n(400, 6000) * scale
-    n_full = ctx.n(15, 250) * scale
+    n = ctx.n(1500, 10000) * scale
+    n_full = ctx.n(40, 400) * scale
     fails = skipped = 0
     hist = S.setdefault("input_distribution", {})
     for k in range(n):
